@@ -257,6 +257,110 @@ def fn_class(fn, reuse=False) -> str:
     return "plain"
 
 
+# ---- call forms: the DOCUMENTED parameter order of every public call (docstrings / signatures at HEAD).  A call is
+# issued with its first `form` arguments positional and the rest by keyword (form = n: all positional, 0: all keywords)
+DOC = {
+    "Lattice3D": ["x_min", "x_max", "y_min", "y_max", "z_min", "z_max", "num_points_x", "num_points_y", "num_points_z",
+                  "n_sigma_x", "n_sigma_y", "n_sigma_z"],
+    "set_value_by_index": ["i", "j", "k", "value"], "get_value_by_index": ["i", "j", "k"],
+    "set_value": ["x", "y", "z", "value"], "set_value_nearest_neighbor": ["x", "y", "z", "value"],
+    "get_value": ["x", "y", "z"], "get_value_nearest_neighbor": ["x", "y", "z"],
+    "get_coordinates": ["i", "j", "k"], "find_closest_indices": ["x", "y", "z"],
+    "interpolate_value": ["x", "y", "z", "method"], "rescale": ["factor"], "save_to_csv": ["filename"],
+    "load_from_csv": ["filename"], "reset": [],
+    "__add__": ["other"], "__sub__": ["other"], "__mul__": ["other"], "__truediv__": ["other"],
+}
+METHOD = {"si": "set_value_by_index", "sp": "set_value", "sn": "set_value_nearest_neighbor", "rs": "rescale",
+          "rz": "reset", "gi": "get_value_by_index", "gp": "get_value", "gn": "get_value_nearest_neighbor",
+          "co": "get_coordinates", "fc": "find_closest_indices", "iv": "interpolate_value", "bo": "operator",
+          "av": "average", "sv": "save_to_csv", "ld": "load_from_csv", "at": "attributes",
+          "xi": "__get_index", "xn": "__get_index_nearest_neighbor"}
+DUNDER = {"add": "__add__", "sub": "__sub__", "mul": "__mul__", "div": "__truediv__"}
+
+
+def gen_form(rng, n):
+    return rng.choice([n, n, 0, 0, rng.randint(0, n)])
+
+
+def call(target, meth, args, form=None):
+    """target.meth(...) with the first `form` arguments positional, the others by their documented names"""
+    names = DOC[meth]
+    form = len(args) if form is None else min(form, len(args))
+    return getattr(target, meth)(*args[:form], **{names[form + t]: a for t, a in enumerate(args[form:])})
+
+
+# ---- error-path steps (harness-only: the model never sees them).  Each is a call that must fail — wrong type at
+# the first / a middle / the last position, a bad value after the address has been worked out, an operand that is no
+# lattice at any position of `average`, a file that cannot be read / written, or a warning turned into an error — and
+# must leave every live object (and every saved file) exactly as it was.
+BAD_INDEX = ["1", None, 1.5, [0]]
+BAD_COORD = [None, "a", {"$obj": 1}]
+BAD_VALUE = ["abc", [1.0, 2.0]]
+BAD_OPERAND = [3, None, "x", {"$obj": 1}]
+
+
+def gen_ex(rng, l, live, saved):
+    L = live[l]
+    idx = [rng.randrange(n) for n in L["n"]]
+    pt = [L["nodes"][a][idx[a]] for a in range(3)]
+    pos = rng.randrange(3)                              # first / middle / last argument
+    same = [t for t, o in enumerate(live) if o["n"] == L["n"]]
+    kind = rng.choice(["index", "index", "coord", "coord", "value", "value", "operand", "average", "rescale", "reset",
+                       "interp", "load", "save", "warn", "warn", "warn-div"])
+    if kind == "index":
+        m = rng.choice(["set_value_by_index", "get_value_by_index", "get_coordinates"])
+        a = list(idx)
+        a[pos] = rng.choice(BAD_INDEX)
+        return dict(k="ex", l=l, m=m, args=a + ([gen_value(rng, False)] if m == "set_value_by_index" else []),
+                    form=gen_form(rng, len(DOC[m])), why=f"bad-index@{pos}")
+    if kind == "coord":
+        m = rng.choice(["set_value", "set_value_nearest_neighbor", "get_value", "get_value_nearest_neighbor",
+                        "find_closest_indices", "interpolate_value"])
+        a = list(pt)
+        a[pos] = rng.choice(BAD_COORD)
+        if m.startswith("set_"):
+            a.append(gen_value(rng, False))
+        return dict(k="ex", l=l, m=m, args=a, form=gen_form(rng, len(a)), why=f"bad-coordinate@{pos}")
+    if kind == "value":
+        m = rng.choice(["set_value_by_index", "set_value", "set_value_nearest_neighbor"])
+        a = (list(idx) if m == "set_value_by_index" else list(pt)) + [rng.choice(BAD_VALUE)]
+        return dict(k="ex", l=l, m=m, args=a, form=gen_form(rng, 4), why="bad-value-after-addressing")
+    if kind == "operand":
+        o = rng.choice(["add", "sub", "mul", "div"])
+        return dict(k="ex", l=l, m=DUNDER[o], args=[rng.choice(BAD_OPERAND)], form=rng.choice(["op", 1, 0]), why="operand-not-a-lattice")
+    if kind == "average":
+        ops = [{"$lat": rng.choice(same)} for _ in range(rng.randint(0, 3))]
+        at = rng.choice([0, len(ops) // 2, len(ops)])
+        ops.insert(at, rng.choice(BAD_OPERAND))
+        return dict(k="ex", l=l, m="average", args=ops, why=f"operand-not-a-lattice@{at}/{len(ops) - 1}")
+    if kind == "rescale":
+        return dict(k="ex", l=l, m="rescale", args=[rng.choice(["x", None, [1.0] * (L["n"][2] + 1), {"$obj": 1}])],
+                    form=rng.choice([0, 1]), why="bad-factor")
+    if kind == "reset":
+        return dict(k="ex", l=l, m="reset", args=[1], form=1, why="extra-argument")
+    if kind == "interp":
+        return dict(k="ex", l=l, m="interpolate_value", args=list(pt) + ["no-such-method"], form=gen_form(rng, 4), why="bad-method")
+    if kind == "load":
+        bad = rng.choice(["missing", "empty", "directory", "token@0", "token@mid", "token@last"])
+        return dict(k="ex", l=l, m="load_from_csv", args=[{"$badfile": bad}], form=rng.choice([0, 1]), why="unreadable:" + bad)
+    if kind == "save":
+        where = rng.choice(["no-such-dir/l.csv", "no-such-dir/l.csv.gz", ".", "no-such-dir/x.bz2"])
+        return dict(k="ex", l=l, m="save_to_csv", args=[{"$path": where}], form=rng.choice([0, 1]), why="unwritable:" + where)
+    if kind == "warn":                                # a call that only warns, with warnings turned into errors
+        m = rng.choice(["set_value_by_index", "get_value_by_index", "find_closest_indices"])
+        if m == "find_closest_indices":
+            a = list(pt)
+            a[pos] = max(L["nodes"][pos]) + 7.5
+        else:
+            a = list(idx)
+            a[pos] = rng.choice([-1, L["n"][pos], L["n"][pos] + 3])
+            if m == "set_value_by_index":
+                a.append(gen_value(rng, False))
+        return dict(k="ex", l=l, m=m, args=a, form=gen_form(rng, len(a)), wae=True, why="warning-as-error")
+    # a / b with warnings as errors: a zero in the divisor makes numpy warn in the middle of the operator
+    return dict(k="ex", l=l, m="__truediv__", args=[{"$lat": rng.choice(same)}], form="op", wae=True, why="warning-as-error:division")
+
+
 def gen_scenario(rng, ncmd=(6, 22), maxn=6, wild=True):
     """abstract scenario: lattices + commands (operands are indices into the list of live objects)"""
     g0 = gen_geom(rng, maxn)
@@ -278,7 +382,8 @@ def gen_scenario(rng, ncmd=(6, 22), maxn=6, wild=True):
             grid = [gen_value(rng, False) for _ in range(size)]
         else:
             grid = [gen_value(rng, wild) for _ in range(size)]
-        lats.append(dict(ext=g["ext"], n=g["n"], nodes=g["nodes"], grid=grid))
+        lats.append(dict(ext=g["ext"], n=g["n"], nodes=g["nodes"], grid=grid, form=gen_form(rng, 9),
+                         nsig=rng.choice(["omitted", "omitted", "None-by-keyword", "None-positional"])))
     cmds = []
     live = [dict(n=l["n"], nodes=l["nodes"]) for l in lats]
     saved = {}            # target name -> geometry of the lattice last saved there
@@ -286,7 +391,10 @@ def gen_scenario(rng, ncmd=(6, 22), maxn=6, wild=True):
         l = rng.randrange(len(live))
         L = live[l]
         k = rng.choice(["si", "sp", "sp", "sn", "rs", "gi", "gp", "gp", "gn", "co", "fc", "xi", "xi", "xn",
-                        "iv", "bo", "av", "sv", "ld", "nodept", "rz", "at"])
+                        "iv", "bo", "av", "sv", "ld", "nodept", "rz", "at", "ex", "ex"])
+        if k == "ex":
+            cmds.append(gen_ex(rng, l, live, saved))
+            continue
         if k in ("sp", "sn", "gp", "gn", "fc", "iv"):
             pt = [gen_point_axis(rng, L["nodes"][a]) for a in range(3)]
             cls = [c for _, c in pt]
@@ -348,6 +456,16 @@ def gen_scenario(rng, ncmd=(6, 22), maxn=6, wild=True):
                              fn=dict(name=name, kind="path" if rng.random() < 0.25 else "str", rel=rng.random() < 0.25)))
             if mut >= 0.24:
                 live.append(dict(n=saved[name]["n"], nodes=saved[name]["nodes"]))
+    for c in cmds:                                   # the form in which each public call is issued
+        if "form" in c or c["k"] == "ex":
+            continue
+        if c["k"] == "bo":
+            c["form"] = rng.choice(["op", "op", 1, 0])
+        elif c["k"] == "iv":
+            c["form"] = gen_form(rng, 4)
+            c["mdef"] = rng.random() < 0.5          # leave `method` out when it is the documented default
+        elif METHOD.get(c["k"]) in DOC:
+            c["form"] = gen_form(rng, len(DOC[METHOD[c["k"]]]))
     return dict(lats=lats, cmds=cmds, subdir=list(rng.choice(SUBDIRS)))
 
 
@@ -355,7 +473,16 @@ def gen_scenario(rng, ncmd=(6, 22), maxn=6, wild=True):
 def _mk(lat):
     from sparkx.Lattice3D import Lattice3D
     e, n = lat["ext"], lat["n"]
-    L = Lattice3D(e[0], e[1], e[2], e[3], e[4], e[5], n[0], n[1], n[2])
+    args = [e[0], e[1], e[2], e[3], e[4], e[5], n[0], n[1], n[2]]
+    form = lat.get("form")
+    if lat.get("nsig") == "None-positional" and (form is None or form >= 9):
+        args += [None, None, None]                   # the documented defaults given explicitly, by position
+    names = DOC["Lattice3D"]
+    f = len(args) if (form is None or len(args) == 12) else min(form, len(args))
+    kw = {names[f + t]: a for t, a in enumerate(args[f:])}
+    if lat.get("nsig") in ("None-by-keyword", "None-positional") and len(args) == 9:
+        kw.update(n_sigma_x=None, n_sigma_y=None, n_sigma_z=None)
+    L = Lattice3D(*args[:f], **kw)
     L.grid_[...] = np.array(lat["grid"], dtype=float).reshape(n[0], n[1], n[2])
     return L
 
@@ -401,6 +528,69 @@ def _target(sub, fn):
     return (pathlib.Path(arg) if fn.get("kind") == "path" else arg), ap
 
 
+def observe(objs, sub):
+    """everything a caller can observe of the live objects and of the files written so far"""
+    import hashlib
+    out = []
+    for o in objs:
+        out.append(dump_real(o) + "|" + ";".join("none" if v is None else fx(v) for v in (
+            o.cell_volume_, o.spacing_x_, o.spacing_y_, o.spacing_z_, o.density_x_, o.density_y_, o.density_z_,
+            o.n_sigma_x_, o.n_sigma_y_, o.n_sigma_z_)))
+    files = []
+    for name in sorted(os.listdir(sub)):
+        fp = os.path.join(sub, name)
+        files.append(name + ":" + (hashlib.sha1(open(fp, "rb").read()).hexdigest() if os.path.isfile(fp) else "dir"))
+    return out, files
+
+
+def _materialise(a, objs, sub, tmpdir):
+    """JSON-able argument of an error step -> the Python value handed to the call"""
+    if isinstance(a, dict):
+        if "$obj" in a:
+            return object()
+        if "$lat" in a:
+            return objs[a["$lat"]] if a["$lat"] < len(objs) else object()
+        if "$path" in a:
+            return sub if a["$path"] == "." else os.path.join(sub, a["$path"])
+        if "$badfile" in a:
+            kind = a["$badfile"]
+            fp = os.path.join(tmpdir, "bad_" + kind.replace("@", "_") + ".csv")
+            if kind == "missing":
+                return os.path.join(tmpdir, "no-such-file.csv")
+            if kind == "directory":
+                return tmpdir
+            toks = ["0", "1", "0", "1", "0", "1", "2", "2", "2"] + ["1.5"] * 8
+            if kind.startswith("token@"):
+                toks[{"0": 0, "mid": 8, "last": len(toks) - 1}[kind[6:]]] = "abc"
+            with open(fp, "w") as fh:
+                fh.write("" if kind == "empty" else ",".join(toks) + "\n")
+            return fp
+    return a
+
+
+def run_error_step(c, objs, sub, tmpdir):
+    """one call that is expected to fail, caught the way a caller would.  Returns "raised:<class>" or "returned"."""
+    from sparkx.Lattice3D import Lattice3D
+    L = objs[c["l"]]
+    args = [_materialise(a, objs, sub, tmpdir) for a in c["args"]]
+    with warnings.catch_warnings(), np.errstate(all=("warn" if c.get("wae") else "ignore")):
+        warnings.simplefilter("error" if c.get("wae") else "ignore")
+        try:
+            m = c["m"]
+            if m == "average":
+                L.average(*args)
+            elif m == "load_from_csv":
+                call(Lattice3D, m, args, c.get("form"))
+            elif m in DUNDER.values() and c.get("form", "op") == "op":
+                {"__add__": lambda: L + args[0], "__sub__": lambda: L - args[0], "__mul__": lambda: L * args[0],
+                 "__truediv__": lambda: L / args[0]}[m]()
+            else:
+                call(L, m, args, c.get("form"))
+        except Exception as e:  # noqa: BLE001 — any exception is "the call failed"
+            return "raised:" + type(e).__name__
+    return "returned"
+
+
 def run_real(scn, tmpdir, hook=None):
     """execute on the real class.  Returns (driver command strings, answers, dump strings, objects).
     `hook(cmd, answer, objs, last_saved)` is called after every executed command."""
@@ -412,8 +602,28 @@ def run_real(scn, tmpdir, hook=None):
     last_saved = None
     sd = scn.get("subdir") or ["s", ""]
     sub = tempfile.mkdtemp(prefix=sd[0] + "_", suffix=sd[1], dir=tmpdir)   # one fresh directory per run
+    aborted = None
     for c in scn["cmds"]:
         k = c["k"]
+        if k == "ex":
+            if c["l"] >= len(objs):
+                continue
+            before = observe(objs, sub)
+            outcome = run_error_step(c, objs, sub, tmpdir)
+            after = observe(objs, sub)
+            c["_outcome"] = outcome
+            c["_changed"] = None
+            if after != before:
+                which = [f"lattice #{t}" for t, (a, b) in enumerate(zip(before[0], after[0])) if a != b] + \
+                    (["files " + str(sorted(set(after[1]) ^ set(before[1]))[:3])] if after[1] != before[1] else []) + \
+                    ([f"{len(after[0])} objects instead of {len(before[0])}"] if len(after[0]) != len(before[0]) else [])
+                c["_changed"] = ", ".join(which)
+            if hook is not None:
+                hook(c, outcome, objs, last_saved)
+            if outcome == "returned" and c["_changed"]:
+                aborted = before[0]          # the call was accepted and did something: the model cannot follow
+                break
+            continue
         if k in ("bo",):
             if c["a"] >= len(objs) or c["b"] >= len(objs):
                 continue
@@ -432,17 +642,17 @@ def run_real(scn, tmpdir, hook=None):
                     L = objs[c["l"]]
                     i, j, kk = c["i"]
                     dcmds.append(f"si,{c['l']},{i},{j},{kk},{fx(c['v'])}")
-                    L.set_value_by_index(i, j, kk, c["v"])
+                    call(L, "set_value_by_index", [i, j, kk, c["v"]], c.get("form"))
                     ans = "w1" if _warned(w) else "w0"
                 elif k in ("sp", "sn"):
                     L = objs[c["l"]]
                     x, y, z = c["p"]
                     dcmds.append(f"{k},{c['l']},{fx(x)},{fx(y)},{fx(z)},{fx(c['v'])}")
-                    (L.set_value if k == "sp" else L.set_value_nearest_neighbor)(x, y, z, c["v"])
+                    call(L, METHOD[k], [x, y, z, c["v"]], c.get("form"))
                     ans = "w1" if _warned(w) else "w0"
                 elif k == "rs":
                     dcmds.append(f"rs,{c['l']},{fx(c['f'])}")
-                    objs[c["l"]].rescale(c["f"])
+                    call(objs[c["l"]], "rescale", [c["f"]], c.get("form"))
                     ans = "-"
                 elif k == "rz":
                     dcmds.append(f"rz,{c['l']}")
@@ -457,23 +667,23 @@ def run_real(scn, tmpdir, hook=None):
                 elif k == "gi":
                     i, j, kk = c["i"]
                     dcmds.append(f"gi,{c['l']},{i},{j},{kk}")
-                    r = objs[c["l"]].get_value_by_index(i, j, kk)
+                    r = call(objs[c["l"]], "get_value_by_index", [i, j, kk], c.get("form"))
                     ans = "none" if r is None else "v" + fx(r)
                 elif k in ("gp", "gn"):
                     L = objs[c["l"]]
                     x, y, z = c["p"]
                     dcmds.append(f"{k},{c['l']},{fx(x)},{fx(y)},{fx(z)}")
-                    r = (L.get_value if k == "gp" else L.get_value_nearest_neighbor)(x, y, z)
+                    r = call(L, METHOD[k], [x, y, z], c.get("form"))
                     ans = "none" if r is None else "v" + fx(r)
                 elif k == "co":
                     i, j, kk = c["i"]
                     dcmds.append(f"co,{c['l']},{i},{j},{kk}")
-                    r = objs[c["l"]].get_coordinates(i, j, kk)
+                    r = call(objs[c["l"]], "get_coordinates", [i, j, kk], c.get("form"))
                     ans = "c" + fxs(r)
                 elif k == "fc":
                     x, y, z = c["p"]
                     dcmds.append(f"fc,{c['l']},{fx(x)},{fx(y)},{fx(z)}")
-                    r = objs[c["l"]].find_closest_indices(x, y, z)
+                    r = call(objs[c["l"]], "find_closest_indices", [x, y, z], c.get("form"))
                     ans = f"{int(r[0])};{int(r[1])};{int(r[2])};{1 if _warned(w) else 0}"
                 elif k in ("xi", "xn"):
                     L = objs[c["l"]]
@@ -493,11 +703,15 @@ def run_real(scn, tmpdir, hook=None):
                         sup = exc_name(e)
                     c["_sup"] = sup
                     dcmds.append(f"iv,{c['l']},{fx(x)},{fx(y)},{fx(z)},{sup}")
-                    ans = "v" + fx(L.interpolate_value(x, y, z, method=c["m"]))
+                    a_ = [x, y, z] + ([] if (c.get("mdef") and c["m"] == "nearest") else [c["m"]])
+                    ans = "v" + fx(call(L, "interpolate_value", a_, c.get("form", 3)))
                 elif k == "bo":
                     A, B = objs[c["a"]], objs[c["b"]]
                     dcmds.append(f"bo,{c['o']},{c['a']},{c['b']}")
-                    R = {"add": lambda: A + B, "sub": lambda: A - B, "mul": lambda: A * B, "div": lambda: A / B}[c["o"]]()
+                    if c.get("form", "op") == "op":
+                        R = {"add": lambda: A + B, "sub": lambda: A - B, "mul": lambda: A * B, "div": lambda: A / B}[c["o"]]()
+                    else:
+                        R = call(A, DUNDER[c["o"]], [B], c["form"])
                     ans = f"new{len(objs)}"
                     objs.append(R)
                 elif k == "av":
@@ -515,7 +729,7 @@ def run_real(scn, tmpdir, hook=None):
                         with open(ap, "wb") as fh:                 # an existing, longer file of another kind
                             fh.write(b"# not a lattice, 1 2 3\n" * 400)
                     with _cwd(sub if fn.get("rel") else None):
-                        objs[c["l"]].save_to_csv(arg)
+                        call(objs[c["l"]], "save_to_csv", [arg], c.get("form"))
                     # files that appeared next to the targets (temp files left behind): recorded, see `correspond`
                     c["_stray"] = sorted(set(os.listdir(sub)) - set(rows) - {fn["name"]})
                     # the reading side of the text layer: numpy's own reader, which picks the stream by the suffix
@@ -541,7 +755,7 @@ def run_real(scn, tmpdir, hook=None):
                         arg, cwd = os.path.join(tmpdir, "m.csv"), None
                         np.savetxt(arg, np.array(row).reshape(1, -1), delimiter=",")
                     with _cwd(cwd):
-                        R = Lattice3D.load_from_csv(arg)
+                        R = call(Lattice3D, "load_from_csv", [arg], c.get("form"))
                     ans = f"new{len(objs)}"
                     objs.append(R)
                 else:
@@ -551,8 +765,11 @@ def run_real(scn, tmpdir, hook=None):
                     raise
                 ans = exc_name(e)
         answers.append(ans)
+        c["_ans"] = ans
         if hook is not None:
             hook(c, ans, objs, last_saved)
+    if aborted is not None:
+        return dcmds, answers, [d.split("|")[0] for d in aborted], objs
     return dcmds, answers, [dump_real(o) for o in objs], objs
 
 
@@ -766,7 +983,29 @@ def _objects_ok(objs, refs, c, key, tol_last=False):
     return None
 
 
+def _failed(ans: str) -> bool:
+    """the real call raised, or warned and did nothing"""
+    return ans.startswith(("err:", "exc:")) or ans in ("w1", "none")
+
+
 def oracle(scn, tmpdir):
+    """`_oracle`, plus the classification of a failure that only shows after failed calls: if the same history
+    without its failed calls (error steps and rejected calls) is fine, the key says so"""
+    r = _oracle(scn, tmpdir)
+    if r is None or r[0].startswith(("error-path:", "harness-crash")):
+        return r
+    bad = (r[2] or {}).get("cmd")                     # the call on which the property failed stays, whatever it answered
+    valid = [c for c in scn["cmds"] if c is bad or (c["k"] != "ex" and not _failed(c.get("_ans", "")))]
+    if len(valid) == len(scn["cmds"]):
+        return r
+    r0 = _oracle(dict(scn, cmds=[{k: v for k, v in c.items() if not k.startswith("_")} for c in valid]), tmpdir)
+    if r0 is None or r0[0] != r[0]:
+        return ("instance-reuse-after-error:" + r[0], r[1] + "  [the same history without its failed calls " +
+                ("is fine" if r0 is None else "fails differently: " + r0[0]) + "]", r[2])
+    return r
+
+
+def _oracle(scn, tmpdir):
     """Runs the scenario on the real code and, in lock-step, on the reference semantics.  Returns None or
     (key, what, detail) for the first place where the REAL CODE contradicts the property."""
     refs = [RefLat(l["ext"], l["n"], l["nodes"], l["grid"]) for l in scn["lats"]]
@@ -775,6 +1014,13 @@ def oracle(scn, tmpdir):
 
     def hook(c, got, objs, last_saved):
         if found:
+            return
+        if c["k"] == "ex":
+            shown = json.dumps({x: y for x, y in c.items() if not x.startswith("_")}, default=str)
+            if c.get("_changed") and got.startswith("raised"):
+                found.append((f"error-path:object-changed-by-failed-call:{c['m']}",
+                              f"{shown}: the call failed ({got}) and left {c['_changed']} different from what it was "
+                              f"before the call", dict(cmd=c, outcome=got, changed=c["_changed"])))
             return
         nobj = len(refs)
         exp, key, newref = _expect(c, refs, nobj, state)
@@ -793,6 +1039,9 @@ def oracle(scn, tmpdir):
                 return
         r = _objects_ok(objs, refs, c, key or ("unjudged:" + c["k"]), tol_last=(c["k"] == "av"))
         if r:
+            if _failed(got):
+                r = (f"error-path:object-changed-by-failed-call:{METHOD.get(c['k'], c['k'])}",
+                     f"the call failed / was rejected ({got}) and yet: " + r[1], r[2])
             found.append(r)
 
     try:
@@ -854,7 +1103,11 @@ def correspond(ctx):
                 "indices, private index searches, interpolate, + - * /, average, rescale, reset, derived constructor "
                 "attributes, save/load incl. damaged rows; CSV targets: compressed-stream suffixes .gz/.bz2/.xz, no suffix, several "
                 "dots, spaces, unicode, neighbours of other targets (.tmp ~ .bak ...), str / pathlib.Path, relative / absolute, "
-                "existing file overwritten, same path saved again and any earlier target loaded later, odd directory names), each run on the hand-written model AND on the functions "
+                "existing file overwritten, same path saved again and any earlier target loaded later, odd directory names); every "
+                "public call issued all-positional (documented order) / all-keyword / mixed, defaults omitted or explicit; "
+                "error-path steps between the valid calls (wrong type at first/middle/last argument, bad value after addressing, "
+                "non-lattice operand at any position, unreadable / unwritable file, warnings as errors) after which every live "
+                "object and saved file must be exactly as before and later valid calls are judged as usual; each run on the hand-written model AND on the functions "
                 "generated from the current source; "
                 "points are nodes, node±1ulp, edges, midpoints, just outside, far outside, ±inf, NaN, inside. "
                 "non-trivial = scenario with at least one boundary-class point access AND one accepted write or operator; "
@@ -882,6 +1135,13 @@ def correspond(ctx):
         for c in scn["cmds"]:
             if c["k"] == "sv" and "_row" in c:
                 contract["csv_tokens"] += len(c["_row"])
+            if c["k"] == "ex" and "_outcome" in c:
+                ctx.count(f"error-step/{c['m']}/{c['why'].split('@')[0].split(':')[0]}/{c['_outcome'].split(':')[0]}"
+                          + ("+state-changed" if c.get("_changed") else ""))
+            elif "form" in c and "_ans" in c:
+                n_ = len(DOC.get(METHOD.get(c["k"], ""), [])) or 1
+                f_ = c["form"]
+                ctx.count("call-form/" + ("operator" if f_ == "op" else "positional" if f_ >= n_ else "keywords" if f_ == 0 else "mixed"))
             if c["k"] == "sv":
                 ctx.count("csv-target/" + fn_class(c.get("fn", DEFAULT_FN), c.get("_reuse", False)))
                 if c.get("_stray"):
